@@ -1193,6 +1193,44 @@ def r14_3(ctx):
     ctx.ob("no-files-means-stdin", empty, site(v.main), "an empty path list yields one stdin input")
 
 
+def _reused_buffer_fresh(v, node, t):
+    """For `translate_slice(&buf, ..)` with `buf` a `Vec<u8>` local of the frame that runs the input loop:
+    (ok, detail) - ok when no feasible path leads from this call back to it (a later input) without passing a reset of
+    that very buffer (`clear()`, `truncate(0)`); None when the argument is not such a buffer."""
+    sup = v.sup
+    tr = strace(sup, node, t["args"][1], extra=("std::ops::Deref::deref",))
+    if not (tr.origin and tr.origin[0] in ("call", "multi", "rvalue")):
+        return None
+    if tr.origin[0] == "call":
+        l = tr.origin[2]["dest"]["l"] if not tr.origin[2]["dest"]["pr"] else None
+    elif tr.origin[0] == "multi":
+        l = tr.origin[1]
+    else:
+        l = tr.origin[1]["p"]["l"] if isinstance(tr.origin[1], dict) and "p" in tr.origin[1] and not tr.origin[1]["p"]["pr"] else None
+    ob = sup.body_of(tr.origin_node)
+    if l is None or not ob.local_ty(l).startswith("std::vec::Vec<u8"):
+        return None
+    home = (tr.origin_node[0], l)
+    resets = []
+    for n2, b2, t2 in v.calls:
+        f2 = fn_of(t2) or {}
+        if not (f2.get("def", "").startswith("std::vec::Vec") and f2.get("name") in ("clear", "truncate") and t2["args"]):
+            continue
+        if f2["name"] == "truncate" and not (len(t2["args"]) == 2 and const_value(t2["args"][1]) == 0):
+            continue
+        r2 = strace(sup, n2, t2["args"][0])
+        l2 = None
+        if r2.origin and r2.origin[0] == "call" and not r2.origin[2]["dest"]["pr"]:
+            l2 = r2.origin[2]["dest"]["l"]
+        elif r2.origin and r2.origin[0] == "multi":
+            l2 = r2.origin[1]
+        if l2 is not None and (r2.origin_node[0], l2) == home:
+            resets.append(n2)
+    again = v.reach_after(node, removed_nodes=resets)
+    ok = node not in again
+    return (ok, f"between two uses of the shared buffer it is always reset ({len(resets)} reset site(s))" if ok else "the shared input buffer can reach this call again without having been reset: a later input would be translated from an earlier input's bytes")
+
+
 @rule("R14.4", 6, "mmap failure falls back to the reader; open errors are returned; each input variant feeds the matching translate_* call unchanged", ["C14", "C05"])
 def r14_4(ctx):
     v = cliview.view(ctx.facts)
@@ -1229,6 +1267,16 @@ def r14_4(ctx):
             # what the reader is there
             vk = f"{vk}:{'Stdin' if from_lock else 'File'}"
             key = f"{f['name']}@{vk}"
+        if f["name"] == "translate_slice" and not any(s[0] == "downcast" for s in tr.steps):
+            fresh = _reused_buffer_fresh(v, n, t)
+            if fresh is not None:
+                # a byte buffer that outlives one input (a scratch Vec lent to `open`): it must be reset for every
+                # input it is used for
+                ctx.ob(f"{key}:buffer-reset-per-input", fresh[0], v.site(n), fresh[1])
+                rtr = strace_deep(sup, n, t["args"][0], stop_at=tuple(x[2] for x in v.new))
+                same = bool(rtr.origin and rtr.origin[0] == "call" and v.new and rtr.origin[2] is v.new[0][2])
+                ctx.ob(f"{key}:buffer:same-translator", same, v.site(n), "uses the translator constructed before the loop" if same else "translate_* is called on a different translator")
+                continue
         if f["name"] == "translate_slice":
             ok = any(s[0] == "downcast" and s[1] == vocab.bin_vocab(ctx.facts)["opened"]["mmap"] for s in tr.steps) and all(s[0] in ("use", "ref", "deref", "field", "downcast", "enter_caller", "agg_field") or (s[0] == "call" and ("Deref" in s[1] or s[1] == "std::ops::Try::branch")) for s in tr.steps)
             ctx.ob(f"{key}:map-passed-as-is", ok, v.site(n), "the mapping is passed as a slice through Deref only" if ok else f"slice argument is transformed: {tr.kinds()}")
